@@ -12,6 +12,7 @@ ENUM_RULES = [
     (r"hex::Instr::", "", 0), (r"hex::OprInstr::", "", 0), (r"hex::Syscall::", "SC_", 0),
     (r"static_cast<hex::Instr>\(", "(Instr)(", 0), (r"static_cast<hex::OprInstr>\(", "(OprInstr)(", 0),
     (r"static_cast<hex::Syscall>\(", "(Syscall)(", 0),
+    (r"static_cast<(size_t|uint32_t|uint64_t|int32_t|int64_t|int|unsigned|long|unsigned long|char|unsigned char|uint8_t)>\(", r"(\1)(", 0),
 ]
 
 
@@ -282,7 +283,20 @@ def rewrite_format_streams(t, counts):
                 break
             e += 1
         args = [a.strip() for a in _split_top(t[rp + 1:e], "%")[1:]]
-        res.append("{ EV_FMT(%s, %d); %s }" % (fmt, len(args), " ".join("EV_ARG(%s);" % a for a in args)))
+        # boost::format's documented behaviour: streaming a format object that was fed fewer or more arguments than it
+        # has directives throws (too_few_args / too_many_args).  The directive count of a literal format string is known here.
+        mlit = re.fullmatch(r'"((?:[^"\\]|\\.)*)"', fmt)
+        arity_ok = True
+        if mlit:
+            ndir = len(re.findall(r"%(?!%)[-#0 +]*\d*(?:\.\d+)?[a-zA-Z]", mlit.group(1).replace("%%", "")))
+            arity_ok = ndir == len(args)
+            counts.setdefault("fmt_arity", []).append((ndir, len(args)))
+        ghost = []
+        for a in args:
+            ms = re.fullmatch(r"SYMINFO\((\w+), (\w+)\)", a)
+            ghost += [ms.group(1), ms.group(2)] if ms else [a]
+        res.append("{ EV_FMT(%s, %d); %s%s }" % (fmt, len(ghost), " ".join("EV_ARG(%s);" % a for a in ghost),
+                                                "" if arity_ok else " { VERIF_THROW(0); return; } /* boost::format: argument count differs from the directive count: throws */"))
         counts["fmt"] = counts.get("fmt", 0) + 1
         i = e + 1
     return "".join(res)
@@ -312,7 +326,7 @@ def trace_fns(manifest):
         (r"auto symbolOffset = lastPC - debugInfoMap\[symbolName\];", "uint32_t symbolOffset = lastPC - debugInfoMap_lookup(symbolName);", 1, 1),
         (r"symbolInfo = \(boost::format\(\"%s\+%d\"\) % symbolName % symbolOffset\)\.str\(\);",
          "symbolInfo_name = symbolName->first; symbolInfo_offset = symbolOffset; /* \"%s+%d\" */", 1, 1),
-        (r"% symbolInfo %", "% symbolInfo_name % symbolInfo_offset %", 1, 1),
+        (r"% symbolInfo %", "% SYMINFO(symbolInfo_name, symbolInfo_offset) %", 1, 1),  # one boost argument (the rendered string), two ghost values
         (r"instrEnumToStr\(instrEnum\)", "instrEnum", 2, 2),
     ], "trace prefix", manifest)
     b = rewrite_format_streams(b, c)
